@@ -3,7 +3,7 @@
    [reach cf s]: s is reachable from the empty server by any interleaving of the atomic steps of Serve (any number of
    calls), acceptConn / wrapPerIPConn, wp.Serve, serveConnCounted / serveConnCleanup, workerFunc, ServeConn (any number of
    concurrent calls), hijackConnHandler and further Close calls, for any remote addresses. *)
-From FH Require Import Model.Base Gen.GenC12 Model.Limits Spec.LimitsSpec Proof.LimitsProof Proof.LimitsBounds Proof.LimitsPool.
+From FH Require Import Model.Base Gen.GenC12 Model.Limits Spec.LimitsSpec Proof.LimitsProof Proof.LimitsBounds Proof.LimitsPool Proof.LimitsClose.
 Open Scope Z_scope.
 
 (* Never more than Concurrency connections inside their request loop at once, for the uses the documentation of
@@ -159,6 +159,31 @@ Example C12_ex_stale_close_is_a_noop :
   exists s, prun pinit stale_trace = Some s /\ closes_own s = true /\ uclosed s = [(0, 0)]%nat /\
             pm s 33686018%N = Some 1%Z /\ prun pinit [PAcquire 16843009 None; PClose 0; PAcquire 33686018 (Some 0%nat)] = None.
 Proof. exact stale_close_is_a_noop. Qed.
+
+(* ---- perIPConn.Close in steps (third LTS of Model/Limits.v) ----------------------------------------------------------------------------
+   Any number of Close calls on the same connection object can overlap (the worker after Connection: close, closeIdleConns, hijackConnHandler,
+   a handler or hijack user holding ctx.Conn()), the underlying Close can take arbitrarily long, and connections of the same address arrive
+   meanwhile.  Because the locked section claims the connection (c.Conn = nil) before the underlying Close, Unregister runs at most once per
+   admitted connection ... *)
+Theorem C12_close_unregisters_at_most_once : forall lim s, xreach lim s -> NoDup (xunreg s).
+Proof. exact unregister_at_most_once. Qed.
+Print Assumptions C12_close_unregisters_at_most_once.
+
+(* ... the counter is exactly the number of admitted connections of the address not yet unregistered, and never more than MaxConnsPerIP connections
+   of an address are open or being closed at once (so an arrival beyond that gets its 429) *)
+Theorem C12_close_steps_perip_bound : forall lim s, xreach lim s ->
+  (forall ip, xm s ip = norm (sumf (holds_ip ip) (xw s))) /\
+  (0 < lim -> forall ip, sumf (open_ip ip) (xw s) <= sumf (holds_ip ip) (xw s) /\ sumf (holds_ip ip) (xw s) <= lim).
+Proof. exact close_steps_accounting. Qed.
+Print Assumptions C12_close_steps_perip_bound.
+
+Example C12_ex_overlapping_closes_give_back_one_unit :
+  match xrun 2 xinit (overlap_trace 16843009) with
+  | Some s => xm s 16843009%N = Some 2 /\ length (xw s) = 3%nat /\ xunreg s = [1%nat] /\
+              xstep 2 s (XUnreg 1) = None /\ xstep 2 s (XUnder 1) = None
+  | None => False
+  end.
+Proof. exact overlapping_closes_give_back_one_unit. Qed.
 
 (* ---- non-vacuity: the three configurations of the getter statement, a 429, a 503 on each path, a hijack -------------------- *)
 Definition a1 := ATcp [1;1;1;1]%N.
